@@ -1,7 +1,7 @@
 (* C03 -- Recorded scan-line times are decoded exactly and consistent ones preserved.
    Statements only; proofs in Proofs/P_C03.v.  Times of day in the stage models are in units u = 1/24 ms. *)
 From Coq Require Import ZArith List Bool Arith.
-From PV Require Import Median Calendar M_Times P_C03.
+From PV Require Import Median Calendar M_Times P_C03 P_C03_J.
 Import ListNotations.
 Open Scope Z_scope.
 
@@ -55,6 +55,24 @@ Theorem C03_clean_identity_partial : forall tp th nums years jdays msecs h c,
   Z.abs (c - U * h) <= U * max_diff_t0 th ->
   get_times tp th nums years jdays msecs (Some h) = rec.
 Proof. exact clean_identity. Qed.
+
+(* the same for recorded milliseconds that are ROUNDED nominal times (LAC: period 1000/6 ms, J = 12 u = 1/2 ms): a quiet pass
+   whose every line lies within J of an exactly periodic time, with 2 J within the repair threshold, is returned unchanged *)
+Theorem C03_clean_identity_rounded_partial : forall tp th nums years jdays msecs h c J,
+  quiet tp nums years jdays msecs -> monotone nums = true -> nums <> [] ->
+  0 <= J -> 2 * J <= U * max_diff_ideal th -> Z.abs (c - U * h) + J <= U * max_diff_t0 th ->
+  0 < min_frac_den th -> min_frac_num th <= min_frac_den th ->
+  let rec := recorded years jdays msecs in
+  (forall i, (i < length nums)%nat -> Z.abs (U * nth i rec 0 - ((nth i nums 0 - 1) * period_u tp + c)) <= J) ->
+  get_times tp th nums years jdays msecs (Some h) = rec.
+Proof. exact clean_identity_band. Qed.
+Print Assumptions C03_clean_identity_rounded_partial.
+
+Example C03_example_lac : quiet lac_tp lac_nums lac_years lac_jdays lac_msecs /\
+  (forall i, (i < length lac_nums)%nat ->
+     Z.abs (U * nth i (recorded lac_years lac_jdays lac_msecs) 0 - ((nth i lac_nums 0 - 1) * period_u lac_tp + (U * 981280800123 - 2 * 4000))) <= 12) /\
+  get_times lac_tp ex_th lac_nums lac_years lac_jdays lac_msecs (Some 981280799790) = recorded lac_years lac_jdays lac_msecs.
+Proof. split; [exact lac_quiet|]. split; [exact lac_band|]. vm_compute. reflexivity. Qed.
 
 Theorem C03_clean_identity_refuted :
   recorded w_years w_jdays w_msecs = w_rec_ms /\ monotone w_nums = true /\ nth 1%nat w_msecs 1 = 0 /\
